@@ -157,6 +157,25 @@ fn harness_exit(msg: &str) -> ! {
     std::process::exit(2);
 }
 
+/// Set by the C20 fault part: additionally judge the files on disk with the independent reader.
+pub static ONDISK_LENS: std::sync::atomic::AtomicBool = std::sync::atomic::AtomicBool::new(false);
+
+fn ondisk_agrees<K: HKey>(db: &std::path::Path, n: u64, cas: &Cas<K>, ctx: &str) -> R<()> {
+    let shown: crate::ondisk::State = cas.read_index_state().iter().map(|(k, i)| (k.to_key_bytes_owned(), (*i.blob_hash.as_bytes(), i.blob_size))).collect();
+    let d = match crate::ondisk::read_disk(db) {
+        Ok(d) => d,
+        Err(e) => fail!("ondisk/malformed", "{ctx}: the independent reader rejects the files: {e}"),
+    };
+    if let Err(e) = d.check_versions(n) {
+        fail!("ondisk/version-order-or-range", "{ctx}: {e}");
+    }
+    let st = d.decode_state();
+    if st != shown {
+        fail!("ondisk/decoded-state-differs", "{ctx}: snapshot (v{}) + log (max v{}) decode to {} keys, the store shows {} keys: an acknowledged operation is not recoverable from the files (version reused or record below the snapshot version)", d.snap_version(), d.max_version(), st.len(), shown.len());
+    }
+    Ok(())
+}
+
 fn judge<K: HKey>(case: &FaultCase, run: &RunOut, db: &std::path::Path, k: u64, meta: &mut CaseMeta) -> R<bool> {
     let pool = K::pool();
     let key = |i: u8| pool[(i as usize).min(pool.len() - 1)].clone();
@@ -302,6 +321,53 @@ fn judge<K: HKey>(case: &FaultCase, run: &RunOut, db: &std::path::Path, k: u64, 
             let what = if obs.starts_with("err:") { format!("read-error/{}", obs.trim_start_matches("err:")) } else { "wrong-value".to_string() };
             let who = if touched { "failed-op-key" } else { "other-key" };
             fail!(sigsite(&format!("{who}/after-reopen/{what}")), "k={k} ({site}, fault in op {fault_op:?}): after reopen get({kk:?}) = {obs:?}, allowed {:?}", m.alts(kk).iter().map(|a| obs_of_bytes(a.as_ref().map(|b| &b[..]))).collect::<Vec<_>>());
+        }
+    }
+    let ondisk = ONDISK_LENS.load(std::sync::atomic::Ordering::SeqCst);
+    if ondisk {
+        ondisk_agrees::<K>(db, case.cfg.n, &cas, &format!("k={k} ({site}, fault in op {fault_op:?}) after the clean reopen"))?;
+    }
+    // 5. life goes on: one more acknowledged put on the reopened store, another clean restart, and the put
+    //    must be there (a failed call must not poison what is stored later), all other keys as before
+    let sentinel = crate::common::gen_content(4242, 33);
+    let k0 = pool[0].clone();
+    let put = (|| -> Result<(), cassadilia::LibError> {
+        let mut tx = cas.put(k0.clone())?;
+        tx.write(&sentinel).map_err(|e| cassadilia::LibError::Io { operation: cassadilia::LibIoOperation::WriteStagingFile, path: None, source: std::io::Error::other(format!("{e:?}")) })?;
+        tx.finish()
+    })();
+    if let Err(e) = put {
+        fail!(sigsite(&format!("put-after-reopen-fails/{}", err_path(&e))), "k={k} ({site}, fault in op {fault_op:?}): a put on the cleanly reopened store fails: {e:?}");
+    }
+    if ondisk {
+        ondisk_agrees::<K>(db, case.cfg.n, &cas, &format!("k={k} ({site}, fault in op {fault_op:?}) after one more acknowledged put on the reopened store"))?;
+    }
+    drop(cas);
+    let cas = match Cas::<K>::open(db, case.cfg.config(case.cfg.asyn)) {
+        Ok(c) => c,
+        Err(e) => {
+            fail!(sigsite(&format!("second-reopen-fails/{}", err_path(&e))), "k={k} ({site}, fault in op {fault_op:?}): the second clean reopen (after one more put) fails: {e:?}");
+        }
+    };
+    for (i, kk) in pool.iter().enumerate() {
+        let got = cas.get(kk);
+        if i == 0 {
+            match &got {
+                Ok(Some(b)) if b[..] == sentinel[..] => {}
+                other => fail!(sigsite("put-after-reopen-lost"), "k={k} ({site}, fault in op {fault_op:?}): a put acknowledged after the first reopen is not there after the second: get = {:?}", other.as_ref().map(|o| o.as_ref().map(|b| b.len()))),
+            }
+            continue;
+        }
+        let obs = match got {
+            Ok(None) => "absent".to_string(),
+            Ok(Some(b)) => obs_of_bytes(Some(&b[..])),
+            Err(e) => format!("err:{}", err_path(&e)),
+        };
+        if !m.obs_ok(kk, &obs) {
+            let touched = m.uncertain.contains_key(kk);
+            let what = if obs.starts_with("err:") { format!("read-error/{}", obs.trim_start_matches("err:")) } else { "wrong-value".to_string() };
+            let who = if touched { "failed-op-key" } else { "other-key" };
+            fail!(sigsite(&format!("{who}/after-second-reopen/{what}")), "k={k} ({site}, fault in op {fault_op:?}): after the second reopen get({kk:?}) = {obs:?}");
         }
     }
     drop(cas);
